@@ -115,6 +115,9 @@ def hill_climb_mesh_extreme(
         Indices of extreme vertices of the mesh in mesh frame.
     """
     search_direction = np.ascontiguousarray(search_direction)
+    # the search direction is not normalized (GJK passes the current closest
+    # point), so the threshold has to scale with its length
+    epsilon = PROJECTION_LENGTH_EPSILON * np.linalg.norm(search_direction)
     best_idx = start_idx
 
     if shortcut_connections is not None:
@@ -122,7 +125,7 @@ def hill_climb_mesh_extreme(
             vertex_diff = np.ascontiguousarray(
                 vertices[connected_idx] - vertices[best_idx])
             projected_length = search_direction.dot(vertex_diff)
-            if projected_length > PROJECTION_LENGTH_EPSILON:
+            if projected_length > epsilon:
                 best_idx = connected_idx
 
     converged = False
@@ -132,7 +135,7 @@ def hill_climb_mesh_extreme(
             vertex_diff = np.ascontiguousarray(
                 vertices[connected_idx] - vertices[best_idx])
             projected_length = search_direction.dot(vertex_diff)
-            if projected_length > PROJECTION_LENGTH_EPSILON:
+            if projected_length > epsilon:
                 best_idx = connected_idx
                 converged = False
 
